@@ -65,12 +65,17 @@ struct Shared {
     waiting: Vec<std::sync::atomic::AtomicBool>,
     done: Vec<std::sync::atomic::AtomicBool>,
     trace: Mutex<Vec<(usize, Ev)>>,
+    /// handles for the wake-ups: the controller and the scenario threads (by id)
+    controller: std::thread::Thread,
+    threads: Vec<std::thread::Thread>,
 }
 
 impl Shared {
-    fn new(n: usize) -> Shared {
+    fn new(n: usize, threads: Vec<std::thread::Thread>) -> Shared {
         use std::sync::atomic::{AtomicBool, AtomicUsize};
         Shared {
+            controller: std::thread::current(),
+            threads,
             turn: AtomicUsize::new(NOBODY),
             waiting: (0..n).map(|_| AtomicBool::new(false)).collect(),
             done: (0..n).map(|_| AtomicBool::new(false)).collect(),
@@ -84,6 +89,7 @@ impl Shared {
         // thread parked, no thread has a pending store to `turn` left
         self.turn.store(NOBODY, Release);
         self.waiting[id].store(true, Release);
+        self.controller.unpark();
         let mut spins = 0u32;
         while self.turn.load(Acquire) != id {
             relax(&mut spins);
@@ -98,6 +104,7 @@ impl Shared {
         self.trace.lock().unwrap().push((id, Ev::Finished));
         self.turn.store(NOBODY, Release);
         self.done[id].store(true, Release);
+        self.controller.unpark();
     }
     fn quiescent(&self) -> bool {
         use std::sync::atomic::Ordering::Acquire;
@@ -120,17 +127,17 @@ struct Job {
     id: usize,
 }
 
-/// Busy-wait step used by the scheduler hand-offs: spin first (a hand-off then costs well
-/// under a microsecond instead of a futex round trip), yield the CPU when it takes longer and
-/// sleep when idle for long (pool threads of a worker that has nothing to do).
+/// Waiting step used by the scheduler hand-offs: spin briefly (a hand-off then costs well under
+/// a microsecond instead of a futex round trip), then sleep until woken. Every store that a
+/// waiter polls is followed by an `unpark` of that waiter; the time-out only bounds the cost of
+/// a wake-up that raced with going to sleep. Sleeping waiters are what keeps the check fast on
+/// a machine that is busy with other work: only the one thread that holds the turn needs a CPU.
 fn relax(spins: &mut u32) {
     *spins = spins.wrapping_add(1);
-    if *spins < 2_000 {
+    if *spins < 400 {
         std::hint::spin_loop();
-    } else if *spins < 200_000 {
-        std::thread::yield_now();
     } else {
-        std::thread::sleep(std::time::Duration::from_micros(200));
+        std::thread::park_timeout(std::time::Duration::from_micros(if *spins < 2_000 { 200 } else { 2_000 }));
     }
 }
 
@@ -139,18 +146,19 @@ type Slot = Arc<Mutex<Option<Job>>>;
 /// Persistent scenario threads of one engine worker (jobs handed over through polled slots).
 struct Pool {
     slots: Vec<Slot>,
+    threads: Vec<std::thread::Thread>,
     done: Arc<Mutex<Vec<(usize, Vec<Answer>)>>>,
 }
 
 impl Pool {
     fn new() -> Pool {
-        Pool { slots: vec![], done: Arc::new(Mutex::new(vec![])) }
+        Pool { slots: vec![], threads: vec![], done: Arc::new(Mutex::new(vec![])) }
     }
     fn grow(&mut self) {
         let slot: Slot = Arc::new(Mutex::new(None));
         let mine = slot.clone();
         let done = self.done.clone();
-        std::thread::spawn(move || {
+        let h = std::thread::spawn(move || {
             let mut spins = 0u32;
             loop {
                 // the pool's owner dropped its handle: stop
@@ -175,6 +183,7 @@ impl Pool {
                 job.shared.finish(job.id);
             }
         });
+        self.threads.push(h.thread().clone());
         self.slots.push(slot);
     }
 }
@@ -229,7 +238,13 @@ struct Execution {
 fn execute(sc: &Scenario, choices: &[u8]) -> Execution {
     let n = sc.threads.len();
     let view = Arc::new(SourceView::new(sc.text.clone().into()));
-    let shared = Arc::new(Shared::new(n));
+    POOL.with(|p| {
+        let mut p = p.borrow_mut();
+        while p.slots.len() < n {
+            p.grow();
+        }
+    });
+    let shared = Arc::new(Shared::new(n, POOL.with(|p| p.borrow().threads[..n].to_vec())));
     // scenario threads come from a per-worker pool (spawning threads per execution costs more
     // than the execution and serialises on the process' address-space lock)
     POOL.with(|p| {
@@ -241,6 +256,7 @@ fn execute(sc: &Scenario, choices: &[u8]) -> Execution {
         for (id, calls) in sc.threads.iter().enumerate() {
             let job = Job { view: view.clone(), shared: shared.clone(), calls: calls.clone(), id };
             *p.slots[id].lock().unwrap() = Some(job);
+            p.threads[id].unpark();
         }
     });
     let mut decisions = vec![];
@@ -268,6 +284,7 @@ fn execute(sc: &Scenario, choices: &[u8]) -> Execution {
         let pick = choices.get(k).map(|c| *c as usize).unwrap_or(0).min(runnable.len() - 1);
         decisions.push((pick, runnable.len()));
         shared.turn.store(runnable[pick], Release);
+        shared.threads[runnable[pick]].unpark();
     }
     if stalled {
         // threads are stuck (deadlock inside the view?): do not wait for them
